@@ -265,6 +265,22 @@ func (t *tamper) apply(kind int) string {
 			return ""
 		}
 		src := pl.Keys[0]
+		// A canonical github.com/<org>/<name>-buildkite-plugin[#ref] source respelled in short form WITH
+		// the suffix kept is, by the documented expansion, a different repository
+		// (<name>-buildkite-plugin-buildkite-plugin).
+		if rest, ok := strings.CutPrefix(src, "github.com/"); ok && t.draw(2, "mut:srcform") == 1 {
+			name := rest
+			if i := strings.Index(name, "#"); i >= 0 {
+				name = name[:i]
+			}
+			if strings.Count(name, "/") == 1 && strings.HasSuffix(name, "-buildkite-plugin") {
+				if org, _, _ := strings.Cut(rest, "/"); org == "buildkite-plugins" {
+					rest = strings.TrimPrefix(rest, "buildkite-plugins/")
+				}
+				pl.Keys[0] = rest
+				return "corrupt.plugin-source.short-form-keeping-suffix"
+			}
+		}
 		if i := strings.Index(src, "#"); i >= 0 {
 			pl.Keys[0] = src + "-evil"
 		} else {
@@ -309,7 +325,17 @@ func (t *tamper) apply(kind int) string {
 				return "drop.config-key"
 			}
 		default:
-			// null / {} / scalar config -> a real config
+			// null / {} / scalar config
+			isEmpty := cfg.Kind == gen.KNull || (cfg.Kind == gen.KMap && len(cfg.Keys) == 0) || (cfg.Kind == gen.KSeq && len(cfg.Seq) == 0)
+			if isEmpty && t.draw(2, "mut:cfgzero") == 1 {
+				// a scalar zero value is a config, not "no config"
+				pl.Vals[0] = []*gen.Node{gen.Bool(false), gen.Int(0), gen.Str(""), gen.Float(0)}[t.draw(4, "mut:cfgzerokind")]
+				return "corrupt.config-null-to-scalar-zero"
+			}
+			if !isEmpty && t.draw(2, "mut:cfgnull") == 1 {
+				pl.Vals[0] = gen.Null()
+				return "corrupt.config-scalar-to-null"
+			}
 			pl.Vals[0] = gen.Map().Set("injected", gen.Str("yes"))
 			return "add.config-key"
 		}
@@ -321,6 +347,17 @@ func (t *tamper) apply(kind int) string {
 		}
 		var ls []*gen.Node
 		leaves(m, &ls)
+		if m.Kind == gen.KMap && t.draw(4, "mut:matrix-dim") == 3 {
+			su := m.Get("setup")
+			if su != nil && su.Kind == gen.KSeq && len(su.Seq) > 0 {
+				m.Set("setup", gen.Map().Set("", su).Set("injected_dim", gen.Seq(gen.Str("v"))))
+				return "add.matrix-dimension-beside-anonymous"
+			}
+			if su != nil && su.Kind == gen.KMap {
+				su.Set("injected_dim", gen.Seq(gen.Str("v")))
+				return "add.matrix-dimension"
+			}
+		}
 		if t.draw(4, "mut:matrix-extra") == 3 {
 			// matrix-level extra keys are part of the signed matrix
 			if m.Kind == gen.KSeq {
